@@ -49,24 +49,27 @@ def run(ctx):
             b = rng.integers(-9, 10, size=3).astype(float)
         else:
             M, b = rand_int_affine(rng, unimodular=True)
-        scale_pow = int(rng.choice([0, 0, 0, 3, -3])) if isometry else 0
-        A = tr.AffineTransform(hom(M * (10.0 ** scale_pow) if scale_pow else M, b))
+        # change of scale: a power of ten, or a factor that is NOT a power of ten (2, 300, 0.03 ...): navis detects the order of
+        # magnitude round(log10(scale)) and must move radii and units by exactly that power of ten (never by the raw factor)
+        scale = float(rng.choice([1, 1, 1, 1000, 0.001, 2, 3, 0.5, 300, 0.03, 8, 0.125])) if isometry else 1.0
+        scale_pow = int(round(np.log10(scale)))
+        A = tr.AffineTransform(hom(M * scale if scale != 1 else M, b))
         tmode = str(rng.choice(['affine', 'sequence', 'tps']))
-        if abs(round(np.linalg.det(M))) != 1 and scale_pow:
-            scale_pow = 0
+        if abs(round(np.linalg.det(M))) != 1 and scale != 1:
+            scale_pow, scale = 0, 1.0
             A = tr.AffineTransform(hom(M, b))
         if tmode == 'sequence':
             M2 = np.eye(3)[rng.permutation(3)] * rng.choice([-1.0, 1.0], size=3)
             b2 = rng.integers(-9, 10, size=3).astype(float)
             T = TransformSequence(A, tr.AffineTransform(hom(M2, b2)))
-        elif tmode == 'tps' and not scale_pow:
+        elif tmode == 'tps' and scale == 1:
             src = rng.normal(size=(8, 3)) * 20
             T = tr.TPStransform(src, src + rng.normal(size=(8, 3)))
         else:
             T = A
-        desc = dict(kind=kind, transform=tmode, matrix=M.tolist(), offset=b.tolist(), scale_power=scale_pow)
-        nt = kind in ('skeleton', 'mesh', 'list') or tmode == 'sequence' or scale_pow != 0
-        ctx.case((kind, tmode, str(M.tolist()), str(b.tolist()), scale_pow, ci), nontrivial=nt, sample=desc if ci < 3 else None)
+        desc = dict(kind=kind, transform=tmode, matrix=M.tolist(), offset=b.tolist(), scale=scale, scale_power=scale_pow)
+        nt = kind in ('skeleton', 'mesh', 'list') or tmode == 'sequence' or scale != 1
+        ctx.case((kind, tmode, str(M.tolist()), str(b.tolist()), scale, ci), nontrivial=nt, sample=desc if ci < 3 else None)
         ctx.count('xform:' + kind)
         tol = lambda w: (1e-9 if tmode != 'tps' else 1e-7) * max(1.0, np.abs(w).max())
         if kind in ('skeleton', 'list'):
@@ -133,7 +136,7 @@ def run(ctx):
                 ctx.violation('dotprops tangents are not unit vectors after the transform', desc, dict(norms=nrm[:5].tolist()))
             if kind == 'dotprops-nok' and tmode != 'tps':
                 # tangents carried through helper points: direction = image of the tangent under the linear part (up to sign)
-                L = M * (10.0 ** scale_pow)
+                L = M * scale
                 if tmode == 'sequence':
                     L = M2 @ L
                 w = np.asarray(dp0.vect, dtype=float) @ L.T
